@@ -43,9 +43,12 @@ func TestDirected(t *testing.T) {
 				if !added || err != nil {
 					ev.Violation(t, keyValidRefused, text, "first valid vote of validator %d refused: added=%v err=%v", i, added, err)
 				}
-			}
-			if maj, ok := set.TwoThirdsMajority(); ok {
-				ev.Violation(t, keyD7, text, "majority %s/%d reported; 2 of 4 signed X (total 1) and 1 of 4 signed X' (total 2)", maj, maj.PartsHeader.Total)
+				if maj, ok := set.TwoThirdsMajority(); ok {
+					if i < 2 { // not this defect: two equal validators of four are no majority for anything
+						ev.Violation(t, keyMajNoQuorum, text, "majority %s reported after %d of 4 equal validators voted", idName(maj), i+1)
+					}
+					ev.Violation(t, keyD7, text, "majority %s/%d reported; 2 of 4 signed X (total 1) and 1 of 4 signed X' (total 2)", maj, maj.PartsHeader.Total)
+				}
 			}
 			if x.Key() == x2.Key() {
 				ev.Violation(t, keyD7, text, "BlockID.Key() is the same for two ids that differ in PartsHeader.Total: %q", x.Key())
@@ -60,47 +63,36 @@ func TestDirected(t *testing.T) {
 		}
 	})
 
-	// ---- short signature: anything shorter than 65 bytes makes lib/crypto.SigToPub index out of range. A vote or a
-	// commit entry with such a signature passes ValidateBasic (only "non-empty" is required), so a peer can send it.
-	t.Run("short-signature", func(t *testing.T) {
+	// ---- malformed signature values (shorter than 65 bytes, r = curve order, s = 0) in a vote and in a commit entry are
+	// refusals. (They used to panic in lib/crypto.SigToPub: C11's fixed finding sig.verify-panics.*, /repo 3cacbf1; a
+	// panic here is reported by ev.Guard under panic:<function>.)
+	t.Run("malformed-signature-values", func(t *testing.T) {
 		vs := equalSet(4, 1)
 		x := idPool[1].id
-		reproduced := false
-		var where []string
-		for _, l := range []int{64, 1} {
+		for _, k := range []int{4, 5, 6, 10, 11, 12} {
+			text := "malformed signature " + sigMutNames[k]
 			v := honestVote(vs, chainID, kproto.PrecommitType, 5, 1, 0, x, baseTS)
-			v.Signature = v.Signature[:l]
-			if err := v.ValidateBasic(); err != nil {
-				t.Fatalf("harness: short-signature vote does not pass ValidateBasic: %v", err)
-			}
+			v.Signature = mutateSig(v.Signature, k)
 			set := types.NewVoteSet(chainID, 5, 1, kproto.PrecommitType, vs.set)
 			var added bool
-			if p, frame := ev.Try(func() { added, _ = set.AddVote(v) }); p != "" {
-				reproduced = true
-				where = append(where, fmt.Sprintf("VoteSet.AddVote(sig of %d bytes): %s in %s", l, p, frame))
-			} else if added {
-				ev.Violation(t, keyInvalidAdded, "vote with a truncated signature", "a vote with a %d-byte signature was added", l)
+			ev.Guard(t, func() string { return text }, func() { added, _ = set.AddVote(v) })
+			hash := signHash(chainID, kproto.PrecommitType, 5, 1, x, baseTS)
+			if added && !sigLenient(vs.vals[0].addr, hash, v.Signature) {
+				ev.Violation(t, keyInvalidAdded, text, "a vote with signature %x was added", v.Signature)
 			}
-			// the same in a commit entry
 			sigs := make([]types.CommitSig, 4)
 			for i := range sigs {
 				sigs[i] = honestSig(vs, chainID, i, types.BlockIDFlagCommit, 5, 1, x, baseTS)
 			}
-			sigs[3].Signature = sigs[3].Signature[:l]
+			sigs[3].Signature = mutateSig(sigs[3].Signature, k)
+			sigs[2] = types.NewCommitSigAbsent()
 			c := types.NewCommit(5, 1, x, sigs)
-			if err := c.ValidateBasic(); err != nil {
-				t.Fatalf("harness: short-signature commit does not pass ValidateBasic: %v", err)
+			var err error
+			ev.Guard(t, func() string { return text }, func() { err = vs.set.VerifyCommit(chainID, x, 5, c) })
+			if err == nil && !commitPredicate(vs, chainID, x, 5, c).quorum {
+				ev.Violation(t, keyAcceptNoQuorum, text, "commit with two genuine signatures of four and one malformed (%s) accepted", sigMutNames[k])
 			}
-			if p, frame := ev.Try(func() { _ = vs.set.VerifyCommit(chainID, x, 5, c) }); p != "" {
-				reproduced = true
-				where = append(where, fmt.Sprintf("VerifyCommit(entry sig of %d bytes): %s in %s", l, p, frame))
-			}
-			ev.Case(true, fmt.Sprintf("short-signature len=%d", l), "directed:short-signature")
-		}
-		if ev.Known(keyShortSig) {
-			ev.KnownReproduced(keyShortSig, reproduced)
-		} else if reproduced {
-			ev.Violation(t, keyShortSig, "vote / commit entry with a signature shorter than 65 bytes", "product panic on peer-producible input: %v", where)
+			ev.Case(true, text, "directed:malformed-signature")
 		}
 	})
 
@@ -195,12 +187,12 @@ func TestThresholdTable(t *testing.T) {
 				})
 				maj, ok := set.TwoThirdsMajority()
 				switch {
-				case want && (!ok || exact(maj) != exact(x)):
-					ev.Violation(t, keyMajMissed, text, "type %v: %v of %v voted X first, reported %s/%v", typ, vs.powerOf(forX), vs.total, idName(maj), ok)
-				case wantNil && (!ok || !isNilID(maj)):
-					ev.Violation(t, keyMajMissed, text, "type %v: %v of %v voted nil first, reported %s/%v", typ, vs.powerOf(nilWho), vs.total, idName(maj), ok)
-				case !want && !wantNil && ok:
+				case ok && !(want && exact(maj) == exact(x)) && !(wantNil && isNilID(maj)):
 					ev.Violation(t, keyMajNoQuorum, text, "type %v: majority %s reported; X has %v, nil has %v of %v", typ, idName(maj), vs.powerOf(forX), vs.powerOf(nilWho), vs.total)
+				case want && !ok:
+					ev.Violation(t, keyMajMissed, text, "type %v: %v of %v voted X first, nothing reported", typ, vs.powerOf(forX), vs.total)
+				case wantNil && !ok:
+					ev.Violation(t, keyMajMissed, text, "type %v: %v of %v voted nil first, nothing reported", typ, vs.powerOf(nilWho), vs.total)
 				}
 				if any := set.HasTwoThirdsAny(); any != vs.quorum(vs.powerOf(voters)) {
 					ev.Violation(t, keyAnyMismatch, text, "HasTwoThirdsAny=%v, voters hold %v of %v", any, vs.powerOf(voters), vs.total)
@@ -220,12 +212,7 @@ func TestThresholdTable(t *testing.T) {
 				ev.Violation(t, keyRejectQuorum, text, "commit with %v of %v for X rejected: %v", vs.powerOf(forX), vs.total, err)
 			}
 			if !want && err == nil {
-				key := keyAcceptNoQuorum
-				if vs.exactlyTwoThirds(vs.powerOf(forX)) {
-					key = keyAcceptBoundary
-				} else if vs.quorum(vs.powerOf(voters)) {
-					key = keyAcceptNil
-				}
+				key := acceptKey(vs, vs.powerOf(forX), vs.powerOf(voters))
 				ev.Violation(t, key, text, "commit with %v of %v for X accepted", vs.powerOf(forX), vs.total)
 			}
 			ev.Case(txt != "" && (vs.exactlyTwoThirds(vs.powerOf(forX)) || new(big.Int).Abs(new(big.Int).Sub(new(big.Int).Mul(vs.powerOf(forX), big.NewInt(3)), new(big.Int).Mul(vs.total, big.NewInt(2)))).Cmp(big.NewInt(3*vs.maxP)) <= 0), text, "table")
